@@ -70,7 +70,7 @@ def prod(
         polynomial([[[q0**3],
                      [q1**3+q0*q1**2]]])
         >>> numpoly.prod(poly, axis=[1, 2])
-        polynomial([[[q0**3*q1**3+q0**4*q1**2]]])
+        polynomial([q0**3*q1**3+q0**4*q1**2])
 
     """
     a = numpoly.aspolynomial(a)
@@ -90,9 +90,14 @@ def prod(
         out = _prod(a, axis=axis)
 
     else:
+        axis = [idx + a.ndim if idx < 0 else idx for idx in axis]
         for idx in axis:
             a = _prod(a, axis=idx)
             a = a[(slice(None),) * idx + (numpy.newaxis,)]
+        if not keepdims:
+            a = numpoly.reshape(
+                a, [dim for idx, dim in enumerate(a.shape) if idx not in axis]
+            )
         out = a
 
     return out
